@@ -2175,7 +2175,10 @@ def compile_import(compiler, expr, root, is_lazy, entries):
 
 @pattern_macro("assert", [FORM, maybe(FORM)])
 def compile_assert_expression(compiler, expr, root, test, msg):
-    test = compiler.compile(test)
+    test_form, test = test, compiler.compile(test)
+    if not (test.stmts or test.expr):
+        # A test such as `(do)` compiles to nothing. Its value is `None`.
+        test += asty.Constant(test_form, value=None)
     if msg is not None:
         msg = compiler.compile(msg)
 
